@@ -29,17 +29,12 @@ type c20SplitCase struct {
 	Overlap  int     `json:"overlap"`
 	Text     c20Text `json:"text"`
 	// AssertSize: the "chunk <= size+overlap runes" bound is asserted for this case.
-	// Always true unless the generator excluded the shape of a known finding.
+	// The generator always sets it (the field exists so that old replay files keep their meaning).
 	AssertSize bool `json:"assert_size"`
 }
 
 // every name NewSplitterFactory switches on, the default ("" and an unknown name)
 var c20Strategies = []string{"recursive", "", "code", "go", "python", "markdown", "md", "fixed", "bogus", "recursive", "code", "markdown"}
-
-const (
-	c20FindKeyword = "split_keyword_separator_dropped"
-	c20FindSize    = "split_chunk_exceeds_size_plus_overlap"
-)
 
 func c20KeywordSeps(strategy string) []string {
 	switch strategy {
@@ -59,8 +54,6 @@ func c20HasKeywordSep(strategy, s string) bool {
 	}
 	return false
 }
-
-func c20MultiLevel(strategy string) bool { return strategy != "fixed" }
 
 // c20Deadline runs f; a call that has not returned after the (very generous) limit is
 // reported as non-termination.
@@ -231,19 +224,6 @@ func TestVerif_C20_split(t *testing.T) {
 				c.Overlap = 0
 			}
 		}
-		if verifkit.Known(c20FindKeyword) && c20HasKeywordSep(c.Strategy, s) {
-			// known finding: the keyword separators of the code / markdown strategies are
-			// dropped at chunk boundaries. Keep the text, fall back to the generic strategy.
-			c.Strategy = "recursive"
-			col.Excluded(c20FindKeyword)
-		}
-		if verifkit.Known(c20FindSize) && c.Overlap > 0 && c20MultiLevel(c.Strategy) {
-			// known finding: with overlap > 0 the multi-separator strategies stack the kept
-			// overlap tail of every recursion level on top of an already full piece. The
-			// case still runs (coverage, determinism, totality); only the size bound is off.
-			c.AssertSize = false
-			col.Excluded(c20FindSize)
-		}
 		n := c20CountChunks(c)
 		col.Case(c, n >= 2, c20SplitLabels(c, n)...)
 		if msg := c20RunSplit(c); msg != "" {
@@ -253,9 +233,7 @@ func TestVerif_C20_split(t *testing.T) {
 	})
 }
 
-// Native fuzz target (optional: go test -fuzz FuzzVerifC20Split). Overlap is forced to 0 for
-// the multi-level strategies and the text is run through "recursive" when it holds a
-// keyword separator (the two known findings).
+// Native fuzz target (optional: go test -fuzz FuzzVerifC20Split).
 func FuzzVerifC20Split(f *testing.F) {
 	f.Add("hello world\n\nfoo bar", uint8(0), uint16(5), uint16(0))
 	f.Add("\xff a\nb  c", uint8(7), uint16(2), uint16(1))
@@ -263,12 +241,6 @@ func FuzzVerifC20Split(f *testing.F) {
 		c := c20SplitCase{Strategy: c20Strategies[int(strat)%len(c20Strategies)], Size: int(size)%600 + 1, AssertSize: true,
 			Text: c20Text{Class: "fuzz", Pieces: []c20Piece{c20MkPiece(s, 1)}}}
 		c.Overlap = int(overlap) % c.Size
-		if c20HasKeywordSep(c.Strategy, s) {
-			c.Strategy = "recursive"
-		}
-		if c20MultiLevel(c.Strategy) {
-			c.Overlap = 0
-		}
 		if msg := c20RunSplit(c); msg != "" {
 			t.Fatal(msg)
 		}
